@@ -249,7 +249,7 @@ class Model:
             except SyntaxError as e:
                 raise AnalysisError(f"{path} does not parse: {e}") from e
         # behaviour-preserving canonicalisation of the model's own copy (see sa/normalize.py)
-        from .normalize import aliases_to_captures, annotate_constructor_calls, loops_to_comprehensions, closed_class_names, isinstance_to_match, normalize_package
+        from .normalize import aliases_to_captures, annotate_constructor_calls, loops_to_comprehensions, positional_calls, closed_class_names, isinstance_to_match, normalize_package
 
         closed = closed_class_names(trees)
         self.inlined = normalize_package(trees)
@@ -261,6 +261,7 @@ class Model:
             path = os.path.join(sources.root, PKG_SUBDIR, rel)
             self.modules[rel] = ModuleInfo(rel=rel, path=path, tree=tree, source=sources.files[rel])
         self.constructor_calls = annotate_constructor_calls(trees)
+        self.positional_calls = positional_calls(trees)
         for m in self.modules.values():
             self._index_module(m)
         for m in self.modules.values():
